@@ -1469,6 +1469,25 @@ class Interp(object):
     def st_While(self, s, frame):
         return self.on_while(s, frame)
 
+    def unroll_while(self, s, frame, limit=64):
+        """Bounded concrete unrolling of a while loop whose condition the store determines (or forks on)."""
+        n = 0
+        while True:
+            if not self.cond(s.test, frame):
+                if s.orelse:
+                    return self.block(s.orelse, frame)
+                return None
+            n += 1
+            if n > limit:
+                raise PathLimit('while loop at %s:%d not finished after %d iterations' % (frame.module.relpath, s.lineno, limit))
+            c = self.block(s.body, frame)
+            if c is not None:
+                if c.kind == 'break':
+                    return None
+                if c.kind == 'continue':
+                    continue
+                return c
+
     def st_FunctionDef(self, s, frame):
         frame.locals[s.name] = FuncRef(FuncInfo(frame.module, None, s))
         return None
